@@ -127,7 +127,7 @@ func Load(patterns ...string) (*Loader, error) {
 
 func (l *Loader) parseStdContracts(file, src string) error {
 	// split by lines "//@ package <path>"
-	var cur string
+	var cur, only string
 	var buf []string
 	flush := func() error {
 		if cur == "" || len(buf) == 0 {
@@ -158,11 +158,24 @@ func (l *Loader) parseStdContracts(file, src string) error {
 	}
 	for _, line := range strings.Split(src, "\n") {
 		t := strings.TrimSpace(line)
+		if strings.HasPrefix(t, "//@ only ") {
+			// the entries of this file apply only to units of the named package (and there they take
+			// precedence over unrestricted entries)
+			if err := flush(); err != nil {
+				return err
+			}
+			only = strings.TrimSpace(strings.TrimPrefix(t, "//@ only "))
+			buf = nil
+			continue
+		}
 		if strings.HasPrefix(t, "//@ package ") {
 			if err := flush(); err != nil {
 				return err
 			}
 			cur = strings.TrimSpace(strings.TrimPrefix(t, "//@ package "))
+			if only != "" {
+				cur = only + "|" + cur
+			}
 			buf = nil
 			continue
 		}
@@ -189,10 +202,20 @@ func funcKey(fn *ssa.Function) string {
 	return fn.Name()
 }
 
+// currentUnitPkg is the package of the unit being verified (scoped dependency contracts: `//@ only`).
+var currentUnitPkg string
+
 func (l *Loader) contractFor(fn *ssa.Function) *Contract {
 	if fn.Pkg == nil {
 		// instantiated generic or synthetic wrapper: use origin's package
 		if o := fn.Origin(); o != nil && o.Pkg != nil {
+			if currentUnitPkg != "" {
+				if scs := l.PkgContracts[currentUnitPkg+"|"+o.Pkg.Pkg.Path()]; scs != nil {
+					if c, ok := scs.ByKey[funcKey(fn)]; ok {
+						return c
+					}
+				}
+			}
 			cs := l.PkgContracts[o.Pkg.Pkg.Path()]
 			if cs != nil {
 				if c, ok := cs.ByKey[funcKey(fn)]; ok {
@@ -201,6 +224,13 @@ func (l *Loader) contractFor(fn *ssa.Function) *Contract {
 			}
 		}
 		return nil
+	}
+	if currentUnitPkg != "" {
+		if scs := l.PkgContracts[currentUnitPkg+"|"+fn.Pkg.Pkg.Path()]; scs != nil {
+			if c, ok := scs.ByKey[funcKey(fn)]; ok {
+				return c
+			}
+		}
 	}
 	cs := l.PkgContracts[fn.Pkg.Pkg.Path()]
 	if cs == nil {
